@@ -265,7 +265,9 @@ func c13Render(c *Ctx, p *Prog) {
 			for _, o := range outs {
 				part := map[string]bool{}
 				bad := ""
-				for k, v := range o.Assign {
+				for _, k := range o.AtomKeys() {
+					v := o.Assign[k]
+					_ = v
 					s := o.AtomSyms[k]
 					switch {
 					case s.Op == "binop" && s.Tok == token.LSS && strings.Contains(s.Args[0].String(), ".Alpha") && strings.Contains(s.Args[1].String(), ".P"):
@@ -490,7 +492,9 @@ func c13Render(c *Ctx, p *Prog) {
 					res := o.Results[0]
 					infTrue := false
 					unknown := ""
-					for k, v := range o.Assign {
+					for _, k := range o.AtomKeys() {
+						v := o.Assign[k]
+						_ = v
 						if strings.Contains(o.AtomSyms[k].String(), "math.IsInf") {
 							if v {
 								infTrue = true
